@@ -249,7 +249,7 @@ theorem mem_simplePathsFrom (G : MG α) (hG : G.WF) (t : α) :
 theorem nodesInDirectedPathsCyclic_ok (G : MG α) (hG : G.WF) (S T : List α)
     (h : S = [] ∨ T = [] ∨ ((∀ s ∈ S, s ∈ G.nodes) ∧ ∀ t ∈ T, t ∈ G.nodes)) :
     ∃ R, G.nodesInDirectedPathsCyclic S T = .ok R ∧
-      ∀ v, v ∈ R ↔ ∃ s ∈ S, ∃ t ∈ T, ∃ p, G.DiPath s p t ∧ p.Nodup ∧ v ∈ p := by
+      ∀ v, v ∈ R ↔ ∃ s ∈ S, ∃ t ∈ T, ∃ p, G.DiPath s p t ∧ p.Nodup ∧ 2 ≤ p.length ∧ v ∈ p := by
   unfold nodesInDirectedPathsCyclic
   by_cases hE : S = [] ∨ T = []
   · have : (S.isEmpty || T.isEmpty) = true := by
@@ -270,16 +270,16 @@ theorem nodesInDirectedPathsCyclic_ok (G : MG α) (hG : G.WF) (S T : List α)
       exact ⟨hS, hT⟩
     simp only [hne, Bool.false_eq_true, if_false, hall, if_true]
     refine ⟨_, rfl, fun v => ?_⟩
-    simp only [mem_dedup', List.mem_flatMap, List.mem_flatten]
+    simp only [mem_dedup', List.mem_flatMap, List.mem_flatten, List.mem_filter, decide_eq_true_eq]
     constructor
-    · rintro ⟨s, hs, t, ht, q, hq, hv⟩
+    · rintro ⟨s, hs, t, ht, q, ⟨hq, hql⟩, hv⟩
       rw [mem_simplePathsFrom G hG t _ [] s (by simp) (by simpa using hS s hs) (by simp)] at hq
       obtain ⟨p, hp, hpn, hqp⟩ := hq
       have hqp' : q = p := by simpa using hqp
       subst hqp'
-      exact ⟨s, hs, t, ht, q, hp, by simpa using hpn, hv⟩
-    · rintro ⟨s, hs, t, ht, p, hp, hpn, hv⟩
-      refine ⟨s, hs, t, ht, p, ?_, hv⟩
+      exact ⟨s, hs, t, ht, q, hp, by simpa using hpn, hql, hv⟩
+    · rintro ⟨s, hs, t, ht, p, hp, hpn, hl, hv⟩
+      refine ⟨s, hs, t, ht, p, ⟨?_, hl⟩, hv⟩
       rw [mem_simplePathsFrom G hG t _ [] s (by simp) (by simpa using hS s hs) (by simp)]
       exact ⟨p, hp, by simpa using hpn, by simp⟩
 
